@@ -39,7 +39,7 @@ def r_io_chain(model, rep):
     f = model.own_method("common.MetadataBase", "parse_file")
     cx = facts.fctx(model, f)
     rets = [ev for ev in cx.events if ev.kind == "return"]
-    ok = len(rets) == 1 and all(x[0] == "call" and x[1] == ("global", "json.load") for x in (rets[0].value[1] if rets[0].value[0] == "phi" else (rets[0].value,)))
+    ok = bool(rets) and not cx.ex.falls_through and all(x[0] == "call" and x[1] == ("global", "json.load") for r_ in rets for x in T.alts(r_.value))
     rep.ob("R-IO-CHAIN", "MetadataBase.parse_file", ok, site=cx.site(f.node),
            msg="" if ok else "parse_file must return json.load(<file>)")
     f = model.own_method("common.MetadataBase", "dump")
@@ -1218,9 +1218,8 @@ def r_general_prov(model, rep):
         v = e.value
         plat = ("attr", ("attr", ("attr", S, "_metadata"), "tree"), "platforms")
         arch = ("attr", ("attr", ("attr", S, "_metadata"), "tree"), "arch")
-        want = ("call", ("attr", ("const", ","), "join"), (("call", ("global", "sorted"), (("binop", "|", plat, ("call", ("global", "set"), (("list", (arch,)),), ())),), ()),), ())
         alt = ("call", ("attr", ("const", ","), "join"), (("call", ("global", "sorted"), (("binop", "|", plat, ("set", (arch,))),), ()),), ())
-        ok = v in (want, alt) and not e.guards
+        ok = v == alt and not e.guards
         ob("platforms", ok, "platforms must be the sorted comma list of tree.platforms plus tree.arch: %s" % T.show(v), e)
         # sibling agreement with Tree.serialize
         tf = model.own_method("treeinfo.Tree", "serialize")
@@ -1261,20 +1260,25 @@ def r_general_prov(model, rep):
     e = one("variant")
     mv = None
     if e:
-        v = T.phi_form(e.value)
-        alts = list(v[1]) if v[0] == "phi" else [v]
+        v = e.value
         mvp = P("main_variant") if "main_variant" in cx.params else None
-        first = [a for a in alts if a[0] == "sub" and a[2] == ("const", 0) and (vloc is None or (a[1][0] == "local" and T.same_local(a[1], vloc))
-                                                                              or a[1][0] == "call")]
-        ok = mvp is not None and mvp in alts and len(first) == 1 and len(alts) == 2
+        raw = facts.emit_raw(e)
+        ok = mvp is not None and raw is not None
         if ok:
-            binds = [ev for ev in cx.events if ev.kind == "bind" and ev.value == first[0]]
-            ok = len(binds) == 1 and facts.canon_guards(facts.own_guards(cx, binds[0])) == frozenset(
-                [facts.canon_guard((("cmp", ("is",), (mvp, ("const", None))), True))])
-            # the sort must precede taking element 0
-            if ok and vloc is not None:
-                sorts = [ev for ev in cx.events if ev.kind == "call" and ev.value[1][0] == "attr" and ev.value[1][2] == "sort" and T.same_local(ev.value[1][1], vloc)]
-                ok = bool(sorts) and sorts[0].seq < binds[0].seq
+            isnone = ("cmp", ("is",), (mvp, ("const", None)))
+            given = T.degate(facts.Scenario(cx, atoms={isnone: False}).term(raw))
+            dflt = T.degate(facts.Scenario(cx, atoms={isnone: True}).term(raw))
+            ok = given == mvp and dflt[0] == "sub" and dflt[2] == ("const", 0)
+            if ok:
+                lst = dflt[1]
+                if lst[0] == "local":
+                    # list(<variants>) sorted in place before element 0 is taken
+                    sorts = [ev for ev in cx.events if ev.kind == "call" and ev.value[1][0] == "attr" and ev.value[1][2] == "sort"
+                             and T.same_local(ev.value[1][1], lst) and not ev.guards and not ev.value[2] and not ev.value[3]]
+                    ok = lst[3] == ("call", ("global", "list"), (("attr", ("attr", S, "_metadata"), "variants"),), ()) \
+                        and bool(sorts) and sorts[0].seq < e.ev.seq and (vloc is None or T.same_local(lst, vloc))
+                else:
+                    ok = lst == ("call", ("global", "sorted"), (("attr", ("attr", S, "_metadata"), "variants"),), ())
         mv = e.value
         ob("variant", ok and not e.guards, "variant must be main_variant when given, else the first of the sorted top-level ids: %s" % T.show(v), e)
     for key, primary, fallback in (("packagedir", "packages", "source_packages"), ("repository", "repository", "source_repository")):
